@@ -328,6 +328,8 @@ def c01_r3(ctx):
             v = node.ast.value
             if isinstance(v, ast.Name):
                 return "return:" + v.id
+            if v in good_fm:
+                return "return:<filter>"
             return "return:<expr>"
         return None
 
@@ -345,18 +347,18 @@ def c01_r3(ctx):
            "every returning path applies the deletion filter unless the deleted set is empty",
            detail=fmt(bad) if bad else "")
     # the filtered value is what is returned: the FilterMatcher result is assigned to the returned local
-    ret_names = set(e.split(":", 1)[1] for t in res["normal"] for e in t if e.startswith("return:"))
     assigned = set()
     for st in ast.walk(f.node):
         if isinstance(st, ast.Assign) and st.value in good_fm:
             for t_ in st.targets:
                 if isinstance(t_, ast.Name):
                     assigned.add(t_.id)
-        if isinstance(st, ast.Return) and st.value in good_fm:
-            assigned.add("<expr>")
-    ctx.ob(f, bool(ret_names) and ret_names <= assigned | {"<expr>"} and bool(assigned),
+    # on every path that built the filter, what is returned is the filter (directly or through the local it was bound to)
+    wrong = [t for t in res["normal"] if "filter" in t and not any(
+        e == "return:<filter>" or (e.startswith("return:") and e.split(":", 1)[1] in assigned) for e in t)]
+    ctx.ob(f, not wrong and any("filter" in t for t in res["normal"]),
            "the value returned is the one the FilterMatcher was assigned to",
-           detail="returned %s, filter assigned to %s" % (sorted(ret_names), sorted(assigned)))
+           detail="path %s" % fmt(wrong[0]) if wrong else "")
     # deleted_docs_set comes from the per-document reader's deleted docs
     dd = prog.method("reading.SegmentReader", "deleted_docs_set", inherited=False)
     rets = [norm.canon(r.value) for r in returns_of(dd) if r.value is not None]
@@ -431,7 +433,11 @@ def c01_r4(ctx):
     ok = False
     detail = []
     for lp in ast.walk(f.node):
-        if isinstance(lp, ast.For) and norm.canon(lp.iter) == "self.subsearchers" and isinstance(lp.target, ast.Tuple) \
+        srcs = [norm.deep_canon(lp.iter, f.node)] if isinstance(lp, ast.For) else []
+        if isinstance(lp, ast.For) and isinstance(lp.iter, ast.Name):
+            # a local bound on several branches (sub-searchers, or [(self, 0)] for an atomic searcher)
+            srcs += [norm.canon(v) for v in norm.assigned_names(f.node).get(lp.iter.id, []) if v is not None]
+        if isinstance(lp, ast.For) and any("self.subsearchers" in x for x in srcs) and isinstance(lp.target, ast.Tuple) \
                 and len(lp.target.elts) == 2:
             sub, off = [norm.canon(e) for e in lp.target.elts]
             for inner in ast.walk(lp):
